@@ -652,8 +652,18 @@ func c11r5(c *Ctx) {
 				return true
 			})
 			if m1 && m2 {
-				for _, rs := range is.Body.List {
-					if r, ok := rs.(*ast.ReturnStmt); ok && len(r.Results) == 1 {
+				var rets []*ast.ReturnStmt
+				ast.Inspect(is.Body, func(z ast.Node) bool {
+					if _, isLit := z.(*ast.FuncLit); isLit {
+						return false
+					}
+					if r, ok := z.(*ast.ReturnStmt); ok {
+						rets = append(rets, r)
+					}
+					return true
+				})
+				for _, r := range rets {
+					if len(r.Results) == 1 {
 						if o := prog.ObjOf(info, r.Results[0]); o != nil && o.Name() == "ErrBadDataChunk" {
 							okTerm = true
 						}
